@@ -734,6 +734,27 @@ func runScript(s scriptT) obsT {
 		}
 	}
 	time.Sleep(300 * time.Millisecond)
+	// a pairing-state notification is delivered 500 ms after its state was stored, by a goroutine of its own: on a loaded machine
+	// it can be later than the silence that was taken for quiescence. A notification that still differs from what the hub answers
+	// is given two more seconds (a last notification that is wrong stays wrong)
+	for k := 0; k < 40; k++ {
+		behind := false
+		for name, n := range eth.nodes {
+			if shut[name] {
+				continue
+			}
+			n.mu.Lock()
+			ln := n.lastNote
+			n.mu.Unlock()
+			if ln != "" && ln != csNames[n.h.PairingDetailForSki(skis[other[name]]).State()] {
+				behind = true
+			}
+		}
+		if !behind {
+			break
+		}
+		time.Sleep(50 * time.Millisecond)
+	}
 	eth.mu.Lock()
 	o.Stable = registered["A"] && registered["B"] && eth.visible["A"] && eth.visible["B"] && !shut["A"] && !shut["B"]
 	eth.mu.Unlock()
